@@ -115,7 +115,7 @@ pub fn run(opts: &Opts) -> i32 {
     }
   }
   // (2) generated programs
-  let n = opts.num("programs", if thorough { 1_000_000 } else { 100_000 });
+  let n = opts.num("programs", if thorough { 3_000_000 } else { 250_000 });
   let g = ProgGen { max_entries: if thorough { 7 } else { 6 } };
   for _ in 0..n {
     let p = gen_program(&mut rng, &g);
